@@ -30,7 +30,8 @@ def feedSig (st : Inbound) : String :=
 
 /-- the gateway's signature: bytes left are not observable once the session is closed -/
 def gwSig (st : Inbound) : String :=
-  s!"{st.out.length},{if st.closed then 0 else st.buf.length},{boolStr st.closed},{hashStr (joinFrames st.out)}"
+  if st.closed then s!"{st.out.length},0,1,0"   -- contents of in-flight SENDs are timing dependent after a close
+  else s!"{st.out.length},{st.buf.length},0,{hashStr (joinFrames st.out)}"
 
 def canonCuts (raw : List Nat) (l : Nat) : List Nat :=
   let xs := (raw.map (· % (l + 1))).filter (fun c => 0 < c ∧ c < l)
